@@ -44,7 +44,7 @@ ASSUMPTIONS = [
     "ValueError, which is vacuously the case there)",
 ]
 PROFILE = {
-    "quick": dict(examples=2500, shards=16, budget_s=100),
+    "quick": dict(examples=4000, shards=16, budget_s=100),
     "thorough": dict(examples=30000, shards=16, budget_s=1100),
 }
 
